@@ -312,6 +312,16 @@ fn oracle(cfg: &Value, hist: &[H], log: &[LRec]) {
             violation(class, format!("op {} ({}): callbacks (layer 100 = the filter, 0 = its layer, 1 = the neighbour) with the filter wrapped as {}: {:?}; with the bare filter: {:?}", a.gi, a.op, cfg["fw"], va, vb));
             return;
         }
+        // absolute rules on the filter's own calls (they hold for the bare filter as well): a filter that rejected
+        // the metadata is not asked about the event, and is asked at most once
+        for (who, v) in [("wrapped", &va), ("bare", &vb)] {
+            let rejected = v.iter().any(|x| x.0 == 100 && x.1 == "f_enabled" && !x.4);
+            let asked = v.iter().filter(|x| x.0 == 100 && x.1 == "f_event_enabled").count();
+            if (rejected && asked > 0) || asked > 1 {
+                violation("filter-asked-after-rejecting", format!("op {} ({}), {who} filter: enabled answered {} and event_enabled was then called {} time(s): {:?}", a.gi, a.op, if rejected { "false" } else { "true" }, asked, v));
+                return;
+            }
+        }
         filter_calls += va.iter().filter(|x| x.0 == 100).count();
         if va.iter().any(|x| x.0 == 100 && !x.4 && (x.1 == "f_enabled" || x.1 == "f_event_enabled")) {
             vetoed = true;
